@@ -55,6 +55,8 @@ def sig_of(target, via_instance=False):
     if isinstance(target, FunctionInfo):
         if target.cls is not None:
             decos = {d.id for d in target.node.decorator_list if isinstance(d, ast.Name)}
+            if "classmethod" in decos:
+                return Sig(target, skip_first=True)  # cls is bound whether called on the class or on an instance
             return Sig(target, skip_first=via_instance and "staticmethod" not in decos)
         return Sig(target)
     return None
